@@ -178,8 +178,15 @@ unsigned hwloc_get_closest_objs (struct hwloc_topology *topology, struct hwloc_o
   if (!src->cpuset)
     return 0;
 
-  src_nbobjects = topology->level_nbobjects[src->depth];
-  src_objs = topology->levels[src->depth];
+  if (src->depth < 0) {
+    /* memory objects have a cpuset but they are stored in special levels */
+    unsigned l = HWLOC_SLEVEL_FROM_DEPTH(src->depth);
+    src_nbobjects = topology->slevels[l].nbobjs;
+    src_objs = topology->slevels[l].objs;
+  } else {
+    src_nbobjects = topology->level_nbobjects[src->depth];
+    src_objs = topology->levels[src->depth];
+  }
 
   parent = src;
   while (stored < max) {
